@@ -118,3 +118,10 @@ CHECKS["C13"] = dict(
     note="A body transferred completely with status 200 counts as a complete version even if a content-level validator later rejects it (restart usability is not asserted then; counted in evidence). Crash points at syscall and transfer-chunk granularity; no power-loss semantics (missing fsync invisible).",
     ref="2/C13",
 )
+CHECKS["C08"] = dict(
+    level="exploration",
+    technique="runtime monitoring: real listeners of every transport with a handler whose response size/shape is steered to the byte by the query name; raw clients measure wire lengths and framing (sentinel query after every stream frame, DoQ stream read to FIN); per-cell oracle from the statement",
+    text="6140 cells per quick run (all 1640 boundary cells + seeded sample of a 232k grid: response size x advertised size x configured maximum x EDNS option subsets x own OPT x 15 paths): UDP/DNSCrypt-UDP length <= max(512, min(advertised, configured)), stream/DoH length <= 65535 with a consistent prefix, dropped records => TC and empty answer, OPT echoed with the client's UDP size and version 0, padding/keep-alive only where allowed.",
+    note="'No response' (packing refused, EMSGSIZE, DoQ keep-alive refusal) is bucketed, never judged. Plain-HTTP DoH counts as DoH for the padding rule. Requests <= 512 bytes.",
+    ref="2/C08",
+)
